@@ -132,8 +132,14 @@ def handle (toks : List String) (impl : String) : Verdict :=
               else if Rpki.AsDer.decodeExt der = some cl then none
               else some "the encoded AS resources extension does not decode back to the same set")
           | _ => some "unreadable result" }
-  | ["as-parse", _] =>
-    { oracle := if impl.startsWith "ok-inverted" then some "text with lower bound above upper bound accepted"
+  | ["as-parse", h] =>
+    { model := (parseHex h).map fun t =>
+        match Rpki.ResText.parseAsItems (t.map UInt8.toNat) with
+        | none => "err"
+        | some items =>
+          -- an inverted range cannot be written in this grammar (`min > max` is refused)
+          s!"ok {showChain asTag (fromIter M32 items)}",
+      oracle := if impl.startsWith "ok-inverted" then some "text with lower bound above upper bound accepted"
                 else if impl.startsWith "ok " then checkSet M32 asTag (impl.drop 3).toString [] (fun x => (parseTagged (impl.drop 3).toString).any (fun tb => memb (tb.map (·.1)) x))
                 else none }
   | [op, bs] =>
@@ -158,8 +164,16 @@ def handle (toks : List String) (impl : String) : Verdict :=
       else badOp "unknown op"
   | ["ip-text", _, _] =>
     { oracle := if impl = "ok" then none else some s!"text/serde form does not parse back to an equal set: {impl}" }
-  | ["ip-parse", _, _] =>
-    { oracle := if impl.startsWith "ok-inverted" then some "text with lower bound above upper bound accepted"
+  | ["ip-parse", fam, h] =>
+    { model := (parseHex h).bind fun t =>
+        match Rpki.ResText.parseIpItems (fam = "4") (t.map UInt8.toNat) with
+        | none => some "err"
+        | some items =>
+          let bs := items.map Rpki.ResText.tblkBounds
+          -- ranges written with the bounds the wrong way round are stored as written (listed finding): no model line
+          if bs.any (fun b => b.lo > b.hi) then none
+          else some s!"ok {showChain ipTag (fromIter M128 bs)}",
+      oracle := if impl.startsWith "ok-inverted" then some "text with lower bound above upper bound accepted"
                 else if impl.startsWith "ok " then checkSet M128 ipTag (impl.drop 3).toString [] (fun x => (parseTagged (impl.drop 3).toString).any (fun tb => memb (tb.map (·.1)) x))
                 else none }
   | ["as-has", a, x] =>
